@@ -699,6 +699,14 @@ global ZeroAddress
 assert
 retsub
 """)
+HAND["h020"] = ("logic-sig with a six-way dispatcher; every case checks the RekeyTo of the transaction at a constant index through gtxns", """
+#pragma version 5
+txn Fee
+int 1000
+<=
+assert
+""" + "".join("arg 0\nbtoi\nint %d\n==\nbnz case_%d\n" % (k, k) for k in range(6)) + "err\n" + "".join(
+    "case_%d:\nint 0\ngtxns RekeyTo\nglobal ZeroAddress\n==\nassert\nint 1\nreturn\n" % k for k in range(6)))
 
 
 def deep_chain(n):
@@ -923,6 +931,27 @@ def main():
         with open(os.path.join(OUT, "teal", wid + ".teal"), "w") as f:
             f.write(tw)
         index.append({"id": wid, "file": "teal/%s.teal" % wid, "origin": "twin of %s: %s" % (e["id"], what), "twin_of": e["id"],
+                      "sha256": hashlib.sha256(tw.encode()).hexdigest(), "lines": tw.count("\n")})
+    # index twins: every constant group index pushed right before a gtxns-family instruction moved
+    # by one (two revisions of one contract that check another transaction of the group)
+    m = 0
+    for e in [x for x in index if x["id"][0] in "thg" and x["lines"] <= 400]:
+        lines = open(os.path.join(OUT, e["file"])).read().split("\n")
+        changed = 0
+        for i in range(len(lines) - 1):
+            w = lines[i].split()
+            nxt = lines[i + 1].split()
+            if len(w) == 2 and w[0] in ("int", "pushint") and w[1].isdigit() and nxt and nxt[0] in ("gtxns", "gtxnsa", "gtxnsas"):
+                lines[i] = lines[i].replace(w[1], str((int(w[1]) + 1) % 16), 1)
+                changed += 1
+        if not changed or m >= 16:
+            continue
+        tw = "\n".join(lines)
+        wid = "x%03d" % m
+        m += 1
+        with open(os.path.join(OUT, "teal", wid + ".teal"), "w") as f:
+            f.write(tw)
+        index.append({"id": wid, "file": "teal/%s.teal" % wid, "origin": "twin of %s: %d constant gtxns indices +1" % (e["id"], changed), "twin_of": e["id"],
                       "sha256": hashlib.sha256(tw.encode()).hexdigest(), "lines": tw.count("\n")})
     json.dump(index, open(idx_path, "w"), indent=1)
     print(len(index), "programs")
